@@ -229,7 +229,8 @@ func c08Specs(quick bool) []*wSpec {
 		d = 4
 	}
 	sfx := map[bool]string{true: "-q", false: ""}[quick]
-	return []*wSpec{{Prop: "C08", Name: "C08-3w2m" + sfx, Cfg: cfg, Init: init, Setup: c08Setup, Menu: c08Menu, Depth: d, NoInvariants: true}}
+	return []*wSpec{{Prop: "C08", Name: "C08-3w2m" + sfx, Cfg: cfg, Init: init, Setup: c08Setup, Menu: c08Menu, Depth: d, NoInvariants: true},
+		{Prop: "C08", Name: "C08-crossmint-p2pk" + sfx, Cfg: crossMintCfg, Init: []string{"mint|2|16", "mint|0|8"}, Setup: c08Setup, Menu: crossMintP2PKMenu, Depth: d + 1, NoInvariants: true}}
 }
 
 var c08All = wSpecMap(c08Specs(true), c08Specs(false))
